@@ -564,6 +564,13 @@ B128RoundTrip(v) ==
 \* not 4 (k + 1)); every glyph's bit is readable and reads back what was written, padding bits are
 \* zero and the bit after the last word does not exist; a table of n glyphs whose LAST glyph carries
 \* the only explicit bounding box is split so that the bounding box stream is exactly those 8 bytes.
+\* the arithmetic part alone (cheap for any n; numGlyphs is a uint16, so n ranges up to 65535 - note that
+\* n + 31 does not fit 16 bits for n > 65504, the formula is over the integers)
+BitmapLenArith(n) ==
+  /\ BitmapLen(n) = EncBitmapLen(n)
+  /\ BitmapLen(n) % 4 = 0 /\ 8 * BitmapLen(n) >= n
+  /\ (n > 0 => 8 * (BitmapLen(n) - 4) < n) /\ (n = 0 => BitmapLen(n) = 0)
+  /\ (n % 32 = 0 => BitmapLen(n) = n \div 8)
 BitmapLenRule(n) ==
   LET bits == [g \in 1 .. n |-> IF g = 1 \/ g = n \/ g % 32 = 0 THEN 1 ELSE 0]
       bm == BitmapBytes(bits)
@@ -572,11 +579,8 @@ BitmapLenRule(n) ==
       recs == [g \in 1 .. n |-> IF g = n THEN dot ELSE EmptyRec]
       S == EncGlyf(recs, [trip |-> "ref", u16 |-> "short", bbox |-> "needed"])
       pg == ParseGlyfTable(GlyfTableBytes(S, n, 0, 0, <<>>))
-  IN /\ BitmapLen(n) = EncBitmapLen(n)
-     /\ BitmapLen(n) % 4 = 0 /\ 8 * BitmapLen(n) >= n
-     /\ (n > 0 => 8 * (BitmapLen(n) - 4) < n) /\ (n = 0 => BitmapLen(n) = 0)
+  IN /\ BitmapLenArith(n)
      /\ BitmapLen(n) = 4 * Cardinality({g \div 32 : g \in 0 .. (n - 1)})
-     /\ (n % 32 = 0 => BitmapLen(n) = n \div 8)
      /\ Len(bm) = BitmapLen(n)
      /\ \A g \in 0 .. (n - 1) : BitmapGet(bm, g) = bits[g + 1]
      /\ \A g \in n .. (8 * Len(bm) - 1) : BitmapGet(bm, g) = 0
